@@ -4,7 +4,7 @@ compositional function of the type and the naming flag alone (no generator state
 int/str/bool/float → Int/String/Boolean/Float, None → Nothing?, list/Sequence/Collection → List,
 dict/Mapping → Map, set → Set, tuple → Tuple, Optional / `| None` → nullable, unions → union with
 duplicates removed (None last), Literal → literal, Callable → callable type, classes / enums /
-generic classes / type variables → their names.
+generic classes / type variables → their names (back-quoted when the name is a Safe-DS keyword).
 -/
 import StubGen.Model.Naming
 import StubGen.Model.Api
@@ -45,6 +45,9 @@ def nullableKind : AType → Bool
   | .tuple _ | .list _ | .set _ | .dict _ _ => true
   | _ => false
 
+/-- literal values without repetitions, first occurrences kept (`true` and `1` are different literals) -/
+def dedupLit (l : List Lit) : List Lit := l.foldl (fun acc a => if acc.contains a then acc else acc ++ [a]) []
+
 def dedup (l : List String) : List String := l.foldl (fun acc a => if acc.contains a then acc else acc ++ [a]) []
 
 /-- union of already rendered members: duplicates removed, sorted, `Nothing?` last; two members one of
@@ -63,11 +66,12 @@ def unionText (members : List String) (someNullableKind : Bool) : String :=
 
 mutual
 def typeText (safe : Bool) : AType → String
-  | .named n _ => (builtin n).getD n
+  | .named n _ => (builtin n).getD (escapeKeyword n)
   | .final t => typeText safe t
   | .list ts => if ts.isEmpty then "List<Any>" else "List<" ++ joinWith ", " (typeTexts safe ts) ++ ">"
   | .set ts => if ts.isEmpty then "Set<Any>" else "Set<" ++ joinWith ", " (typeTexts safe ts) ++ ">"
-  | .namedSeq n _ ts => if ts.isEmpty then n ++ "<Any>" else n ++ "<" ++ joinWith ", " (typeTexts safe ts) ++ ">"
+  | .namedSeq n _ ts =>
+    if ts.isEmpty then escapeKeyword n ++ "<Any>" else escapeKeyword n ++ "<" ++ joinWith ", " (typeTexts safe ts) ++ ">"
   | .tuple ts => "Tuple<" ++ joinWith ", " (typeTexts safe ts) ++ ">"
   | .dict k v => "Map<" ++ typeText safe k ++ ", " ++ typeText safe v ++ ">"
   | .literal ls => "literal<" ++ joinWith ", " (ls.map litText) ++ ">"
@@ -82,7 +86,7 @@ def typeText (safe : Bool) : AType → String
      | other => if isNamedNone other then "()" else convertName "result_1" safe ++ ": " ++ typeText safe other)
   | .union ts =>
     -- literal members are merged into one `literal<…>`; together with None alone it absorbs `null`
-    let lits := (ts.filter isLit).flatMap litsOf
+    let lits := dedupLit ((ts.filter isLit).flatMap litsOf)
     let nLit := (ts.filter isLit).length
     let nOther := (ts.filter (fun t => !isLit t)).length
     if nLit ≥ 1 && nOther == 1 && ts.any isNoneType && (nLit ≥ 2 || ts.length == 2) then
